@@ -1,5 +1,5 @@
 From Coq Require Import List NArith Arith.
-From SK Require Import lib.LGraph lib.Mono model.C11_Model proof.C11_Aut proof.C11_WL proof.C11_Dedup proof.C11_Main proof.C11_Comp proof.C11_VF2 proof.C11_Vocab proof.C11_Sig proof.C11_Anchor model.C11_State proof.C11_StateProof model.C11_Partial proof.C11_PartialProof proof.C11_PruneClass proof.C11_WLPart.
+From SK Require Import lib.LGraph lib.Mono model.C11_Model proof.C11_Aut proof.C11_WL proof.C11_Dedup proof.C11_Main proof.C11_Comp proof.C11_VF2 proof.C11_Vocab proof.C11_Sig proof.C11_Anchor model.C11_State proof.C11_StateProof model.C11_Partial proof.C11_PartialProof proof.C11_PruneClass proof.C11_WLPart proof.C11_Idem.
 Import ListNotations.
 
 (** Vocabulary (definitions in proof/C11_Aut.v, written out here for the reader):
@@ -303,6 +303,19 @@ Theorem C11_prune_first_of_class :
                      forall p h, In (p, h) (key x) <-> exists p', In (p', h) (key z) /\ p = s p').
 Proof. exact prune_first_of_class. Qed.
 Print Assumptions C11_prune_first_of_class.
+
+(** Both de-duplicators are idempotent (round 3): pruning an already pruned list returns it unchanged - for
+    deduplicate_matches_with_anchor with the same orbit arguments, and for the pruning step of the reactor. *)
+Theorem C11_dedup_idempotent :
+  forall (X : Type) (key : X -> mapping),
+    (forall (xs : list X) porbs anchor horbs hanchor out, NoDup xs ->
+       dedup_anchor_h key xs porbs anchor horbs hanchor = Some out ->
+       dedup_anchor_h key out porbs anchor horbs hanchor = Some out) /\
+    (forall (rc : graph) (raw : list X), simple_graph rc -> NoDup raw ->
+       (forall x, In x raw -> forall p h, In (p, h) (key x) -> In p (node_ids rc)) ->
+       prune key rc (prune key rc raw) = prune key rc raw).
+Proof. exact idempotent_all. Qed.
+Print Assumptions C11_dedup_idempotent.
 
 (** Clause 4, second half: hence every result function [res] (gluing the rule at a match, up to the identification
     used for "distinct") that depends only on the item set of a match and is invariant under the rule automorphisms
